@@ -21,6 +21,7 @@ import (
 func init() { commands["C02"] = runC02 }
 
 type c02World struct {
+	p8     *c08World // pivot chains (operations prefixed "p8.")
 	ts     *mockts.TS
 	keys   map[string][2][]byte
 	agents map[string]*agent.Agent
@@ -33,6 +34,14 @@ func newC02World() *c02World {
 const ksPrefix = 6000
 
 func (w *c02World) line(c *Ctx, in string) {
+	if strings.HasPrefix(in, "p8.") { // pivot-chain operations, carried out by the C08 world
+		if w.p8 == nil || strings.HasPrefix(in, "p8.agent ") && len(strings.Fields(in)) == 5 {
+			w.p8 = newC08World() // a chain starts with its root
+			w.p8.prefix = "p8."
+		}
+		w.p8.line(c, strings.TrimPrefix(in, "p8."))
+		return
+	}
 	parts := strings.Fields(in)
 	switch parts[0] {
 	case "reset":
@@ -297,6 +306,43 @@ func runC02(c *Ctx) {
 	// a case = fresh world, 1-2 agents, a few jobs (<= ksPrefix body bytes), check-ins until drained
 	for cases := 0; c.Lines < c.N; cases++ {
 		w.line(c, "reset")
+		if r.Chance(1, 5) { // a task for an agent behind 1-3 SMB pivots, every agent with a key of its own: each hop must be able to read its layer
+			mkp := func(id, parent string) {
+				key, iv := r.Bytes(32), r.Bytes(16)
+				if r.Chance(1, 10) {
+					key = make([]byte, 32)
+				}
+				l := fmt.Sprintf("p8.agent %s %s %s %s", id, hx(key), hx(iv), hx(keystream(key, iv, 3000)))
+				if parent != "" {
+					l += " " + parent
+				}
+				w.line(c, l)
+			}
+			usedIDs := map[string]bool{}
+			fresh := func() string {
+				for {
+					id := fmt.Sprintf("%08x", r.U32()|1)
+					if !usedIDs[id] {
+						usedIDs[id] = true
+						return id
+					}
+				}
+			}
+			root := fresh()
+			mkp(root, "")
+			prev, chain := root, []string{}
+			for d := 0; d < 1+r.Intn(3); d++ {
+				id := fresh()
+				mkp(id, prev)
+				chain = append(chain, id)
+				prev = id
+			}
+			c.Count(fmt.Sprintf("pivot-chain.depth%d", len(chain)))
+			for k := 0; k < 1+r.Intn(2); k++ {
+				w.line(c, fmt.Sprintf("p8.ptask %s %d %d %s", gen.Pick(r, chain), gen.Pick(r, []uint32{11, 12, 15, 21, 100}), r.U32(), argsStr([]any{genArg(r)})))
+			}
+			w.line(c, "p8.rootcheckin "+root)
+		}
 		na := 1 + r.Intn(2)
 		var ids []string
 		for i := 0; i < na; i++ {
